@@ -41,13 +41,13 @@ Qed.
 
 (** * End to end over one TCP connection
 
-    Messages with any scatter layouts that avoid the sender defect, sent in one or several API calls
-    (here: one call; all accepted), the resulting byte stream cut into kernel reads in ANY way: the
+    Messages of any sizes with any scatter layouts, sent in one API call (all accepted), the resulting
+    byte stream cut into kernel reads in ANY way: the
     receive callback gets, in order and one call each, the 0xF800-byte pieces of the messages, minus
     those the STUN demultiplexer takes for ICE control.  In particular nothing is lost, merged across
     a message boundary, split elsewhere, or reordered. *)
 Theorem tcp_end_to_end (ctl : bytes -> bool) (msgs : list (list bytes)) :
-  Forall (fun b => sumlen b < W64 /\ 0 < sumlen b /\ split_safe b /\ bytes_ok (concat b)) msgs -> msgs <> [] ->
+  Forall (fun b => sumlen b < W64 /\ 0 < sumlen b /\ bytes_ok (concat b)) msgs -> msgs <> [] ->
   exists fss, send_api msgs [] = Some (fss, Z.of_nat (length msgs)) /\
     forall n sc s' k' ds,
       cb_session false ctl true n rst0 {| pend := concat (map wire_of fss); script := sc |} = Some (s', k', ds, false) ->
@@ -55,8 +55,8 @@ Theorem tcp_end_to_end (ctl : bytes -> bool) (msgs : list (list bytes)) :
       ds = filter (keep ctl true) (concat (map (fun b => pieces (concat b)) msgs)) /\ unc s' = [].
 Proof.
   intros Hall Hne.
-  assert (H1 : Forall (fun b => sumlen b < W64 /\ 0 < sumlen b /\ split_safe b) msgs).
-  { eapply Forall_impl; [|exact Hall]. cbn beta. intros b (Ha & Hb & Hc & _). auto. }
+  assert (H1 : Forall (fun b => sumlen b < W64 /\ 0 < sumlen b) msgs).
+  { eapply Forall_impl; [|exact Hall]. cbn beta. intros b (Ha & Hb & _). auto. }
   destruct (send_api_all msgs H1 Hne) as (fss & Hsend & Hwire).
   exists fss. split; [exact Hsend|].
   intros n sc s' k' ds Hrun Hp.
@@ -65,7 +65,7 @@ Proof.
   rewrite Henc in Hrun.
   set (ps := concat (map (fun b => pieces (concat b)) msgs)) in *.
   assert (Hps : Forall pl_ok ps).
-  { unfold ps. clear - Hall. induction Hall as [|b l (_ & _ & _ & Hok) _ IH]; cbn [map concat]; [constructor|].
+  { unfold ps. clear - Hall. induction Hall as [|b l (_ & _ & Hok) _ IH]; cbn [map concat]; [constructor|].
     apply Forall_app. split; [apply pieces_pl_ok; exact Hok | exact IH]. }
   rewrite <- (app_nil_r (encode ps)) in Hrun.
   apply (cb_session_all ctl true n ps [] sc s' k' ds Hps (Forall_nil _) eq_refl Hrun Hp).
@@ -73,7 +73,7 @@ Qed.
 
 (** if no piece is taken for ICE control, every piece is delivered *)
 Corollary tcp_end_to_end_all (ctl : bytes -> bool) (msgs : list (list bytes)) :
-  Forall (fun b => sumlen b < W64 /\ 0 < sumlen b /\ split_safe b /\ bytes_ok (concat b)) msgs -> msgs <> [] ->
+  Forall (fun b => sumlen b < W64 /\ 0 < sumlen b /\ bytes_ok (concat b)) msgs -> msgs <> [] ->
   Forall (fun b => Forall (fun p => ctl p = false) (pieces (concat b))) msgs ->
   exists fss, send_api msgs [] = Some (fss, Z.of_nat (length msgs)) /\
     forall n sc s' k' ds,
@@ -153,24 +153,4 @@ Example cb_session_two_cuts :
 Proof.
   cbv zeta. eexists _, _, _, _. split; [vm_compute; reflexivity|]. split; [vm_compute; reflexivity|].
   split; [vm_compute; reflexivity|]. split; [vm_compute; reflexivity|]. split; vm_compute; reflexivity.
-Qed.
-
-(** bytestream-tcp: a caller message whose buffers have zero total capacity makes the inner loop of component_io_cb
-    (agent.c:6339-6376) spin: every call "succeeds" with 0 bytes, nothing is consumed, the buffer list never shrinks.
-    In the model the loop runs out of any fuel; on the real code nice_agent_recv_messages never returns (reproduced). *)
-Definition spin_s : rst := {| r_buf := [0; 2; 65; 66]; r_fo := 0; r_fs := 4; r_cs := 0; r_wake := true |}.
-Definition spin_k : kern := {| pend := []; script := [] |}.
-Definition zero_msg : imsg := {| m_bufs := [[]]; m_len := 0 |}.
-
-Lemma spin_step : recv_unlocked true ctl1 true spin_s spin_k zero_msg = Some (RSuccess, spin_s, spin_k, zero_msg).
-Proof. vm_compute. reflexivity. Qed.
-
-Theorem bytestream_zero_capacity_spins : forall fuel acc,
-  rel_inner true ctl1 true fuel spin_s spin_k (m_bufs zero_msg) acc = None.
-Proof.
-  induction fuel as [|f IH]; intros acc; [reflexivity|].
-  cbn [rel_inner]. change {| m_bufs := m_bufs zero_msg; m_len := 0 |} with zero_msg. rewrite spin_step.
-  cbn [negb]. change (valid_bytes zero_msg) with (@nil Z). rewrite app_nil_r.
-  change (advance_bufs (m_bufs zero_msg) (m_len zero_msg)) with (m_bufs zero_msg).
-  change (Nat.ltb 0 (length (m_bufs zero_msg))) with true. cbn iota. apply IH.
 Qed.
